@@ -2229,7 +2229,10 @@ impl Compiler {
 
             self.compile_node(catch_block.block, ctx.with_register(try_result_register))?;
 
-            if !is_last_catch {
+            // The last catch block can have a pattern that the error doesn't match
+            let rethrow_if_unmatched = is_last_catch && !type_check_jump_placeholders.is_empty();
+
+            if !is_last_catch || rethrow_if_unmatched {
                 // Jump to the finally block at the end of the catch block
                 self.push_op_without_span(Jump, &[]);
                 finally_jump_placeholders.push(self.push_offset_placeholder());
@@ -2237,6 +2240,13 @@ impl Compiler {
 
             for placeholder in type_check_jump_placeholders {
                 self.update_offset_placeholder(placeholder)?;
+            }
+
+            if rethrow_if_unmatched {
+                // None of the catch blocks accepted the error, so it gets thrown again
+                self.push_span(ctx.node_with_span(catch_block.arg), ctx.ast);
+                self.push_op(Throw, &[catch_register]);
+                self.pop_span();
             }
 
             self.pop_span(); // catch block
